@@ -343,6 +343,36 @@ class Interp(object):
                         raise Unmodelled("split on %r" % (s,))
                     yield _split(s, args[0][1], n, meth == "rsplit"), tr
                 return
+            if meth in ("rstrip",) and len(args) == 1 and not t[3]:
+                # characters of a *set* stripped from the end (not a suffix!): literal text loses them; a symbolic segment loses
+                # whatever of its own end is in the set - if the set holds anything a segment can end in, the segment that is
+                # left is some other (possibly empty) one
+                for s, tr in self._ev(recv, trail):
+                    for x, tr2 in self._ev(args[0], tr):
+                        if not (isinstance(s, AStr) and isinstance(x, AStr) and x.is_concrete()):
+                            raise Unmodelled("rstrip %s" % T.show(t)[:80])
+                        chars = set(x.text())
+                        r = AStr(tuple(s))
+                        while r:
+                            a = r[-1]
+                            if a[0] == "lit":
+                                if a[1] in chars:
+                                    r = AStr(r[:-1])
+                                    continue
+                                break
+                            if a[0] == "txt":
+                                left = a[1].rstrip("".join(chars))
+                                if not left:
+                                    r = AStr(r[:-1])
+                                    continue
+                                if left != a[1]:
+                                    r = AStr(r[:-1] + (("txt", left),))
+                                break
+                            if chars - set(SEPS):
+                                r = AStr(r[:-1] + (("sym", a[1] + "~"),))
+                            break
+                        yield r, tr2
+                return
             if meth in ("endswith",) and len(args) == 1:
                 for s, tr in self._ev(recv, trail):
                     for x, tr2 in self._ev(args[0], tr):
@@ -401,10 +431,15 @@ class Interp(object):
                 for r in self._first(it[1], conds[0], var, t[2][1], 0, trail):
                     yield r
                 return
+            if it[0] == "global" and len(conds) == 1:
+                # what is handed out is computed from the first matching row: that computation, on that row
+                for r in self._first(it[1], conds[0], var, t[2][1], 0, trail, elt=comp[2]):
+                    yield r
+                return
             raise Unmodelled("next() over %s" % T.show(comp)[:80])
         raise Unmodelled("term %s" % T.show(t)[:80])
 
-    def _first(self, table, test, var, default, i, trail):
+    def _first(self, table, test, var, default, i, trail, elt=None):
         rows = self.tables(table)
         if i >= len(rows):
             for r in self._ev(default, trail):
@@ -419,7 +454,11 @@ class Interp(object):
         sub = Interp(env2, self.tables, self.firsts, self.negs)
         for c, tr in sub._ev(test, trail):
             if self._truth(c):
-                yield val, tr
+                if elt is None:
+                    yield val, tr
+                else:
+                    for r in sub._ev(elt, tr):
+                        yield r
             else:
-                for r in self._first(table, test, var, default, i + 1, tr):
+                for r in self._first(table, test, var, default, i + 1, tr, elt=elt):
                     yield r
